@@ -30,6 +30,15 @@ INITIALLY_MISSED = {  # seeded change -> what the check lacked (strengthening do
  "C45-3": "eq globs with a revision in the base (1.2-r1*, 1-r1*) as vulnerable and unaffected ranges added to C45",
  "C45-4": "advisories with an untranslatable <package> entry first / in the middle / last next to ordinary entries added to C45",
  "C46-3": "installed side is a real repository object (SimpleTree) instead of a list (the seeded change crashed the harness: rc=2)",
+ "C31-3": "histories transferring the SAME mapping object 2-3 times (inline/file) with the caller's mapping compared added to C31",
+ "C31-4": "whole environments of 4/63/65/100/300 KiB (around and past the 64 KiB pipe capacity) x {inline, file} added to C31",
+ "C32-3": "multi-target requests through the external install fallback with the failing target first / last added to C32",
+ "C32-4": "unpack of missing / empty / absolute-path files WITHOUT an archive suffix (EAPI 5 for the path form) added to C32",
+ "C33-3": "depth-2 request histories through one helper object (second option string omits an option the first had); owner and mtime now judged",
+ "C33-4": "pre-existing destination states (dangling symlink with/without target dir, live symlink, regular file) added to C33",
+ "C48-3": "packages inheriting two/three eclasses (also nested) so that every eclass event hits the first / middle / last recorded eclass",
+ "C48-4": "event 'ebuild replaced by different content with an OLDER mtime' (flat/mtime backend) added to C48",
+ "C49-3": "EXPORT_FUNCTIONS called before / after the phase function definitions (one or both eclasses) added to C49",
  "C03-1": "glob atoms with explicit -r0/-r0N revisions + wider match universe added to C03",
  "C03-2": "multi-flag USE lists with a default on a non-last flag added to C03",
  "C04-2": "atom slot form with sub-slot equal to slot (:0/0) added to C04 quick",
